@@ -184,12 +184,13 @@ func VerifyBlindedSignature(blinded, original destination.Destination, alpha [32
 	return compareBlindedKeys(origPubKey, blindedKeyBytes, alpha)
 }
 
-// extractEd25519SigningKey validates that the destination uses Ed25519 and returns
-// the 32-byte signing public key.
+// extractEd25519SigningKey validates that the destination uses one of the signature
+// types CreateBlindedDestination accepts (Ed25519 or RedDSA, both 32-byte Ed25519
+// curve points) and returns the 32-byte signing public key.
 func extractEd25519SigningKey(dest destination.Destination) ([32]byte, error) {
 	var result [32]byte
-	if dest.KeyCertificate.SigningPublicKeyType() != key_certificate.KEYCERT_SIGN_ED25519 {
-		return result, oops.Errorf("destination does not use Ed25519")
+	if err := validateBlindingSigType(dest); err != nil {
+		return result, err
 	}
 	key, err := dest.SigningPublicKey()
 	if err != nil {
